@@ -201,6 +201,12 @@ def random_call(rng: PlanRng, plan_ctx, mode, tier):
         if rng.coin(0.35):
             c["l1"] = float(sig(rng.choice([0.3, 1.0, 2.5, 6.0, 15.0]) * rng.uniform(0.8, 1.25)
                                 * plan_ctx.get("unit", 1.0)))
+            mids = plan_ctx.get("l1_mid")
+            if mids and rng.coin(0.45):
+                # a total in the middle of the gamut (that of the mid-range intensities): the
+                # slice at such a total usually contains every chromaticity of the gamut, so
+                # that membership is asserted
+                c["l1"] = float(sig(mids[bool(c["relative"])] * rng.uniform(0.85, 1.15)))
     return c
 
 
@@ -218,6 +224,13 @@ def generate(rs, mode, tier, index):
     sysd = make_system(rng) if rng.coin(0.6) or mode == "uniform" and rng.coin(0.5) else None
     targets = list(clouds) + (["est"] if sysd else [])
     ctx = {"targets": targets, "unit": 1.0 if sysd is None else sysd.get("unit", 1.0)}
+    if sysd is not None and sysd["ub"] is not None:
+        A_ = np.trapezoid(sysd["F"][:, None, :] * sysd["S"][None, :, :], dx=1.0, axis=-1)
+        lb_ = np.zeros(sysd["n_src"]) if sysd["lb"] is None else np.asarray(sysd["lb"], float)
+        q_ = A_ @ (0.5 * (lb_ + np.asarray(sysd["ub"], float)))
+        ctx["l1_mid"] = {False: float(q_.sum()),
+                         True: float(((q_ + np.asarray(sysd["baseline"], float))
+                                      * np.asarray(sysd["K"], float)).sum())}
     ops = []
     n_calls = rng.integers(3, 12)
     perturb_p = 0.5 if mode != "clean" else 0.25
